@@ -2,6 +2,8 @@
 package netpoll
 
 import (
+	"syscall"
+	"runtime"
 	"context"
 	"fmt"
 	"net"
@@ -16,6 +18,7 @@ func init() {
 	vcScenarios["C06"] = vcScenC06
 	vcDirected["C06"] = []vcScenario{
 		vcRunC06HupWindow,
+		func(t *vcTrial) { vcRunC06SetOnRequestTie(t, 16000) },
 		func(t *vcTrial) {
 			vcRunC06(t, vc06Cfg{Network: "tcp", Handler: "all", Chunks: 6, Mode: vcModePause, P: vpProcessAfterUnlock, Q: vpInputAckAfterBook, WriteOnPark: true})
 		},
@@ -63,6 +66,12 @@ var vc06Q = []int{vpInputAckAfterBook, vpInputAckBeforeTrigger, vpOnRequestEnter
 
 func vcScenC06(t *vcTrial) {
 	r := t.R
+	if r.intn(1600) == 0 {
+		// a window a few instructions wide with no hook point inside is reached by volume only:
+		// about once per quick run, some forty times per thorough run
+		vcRunC06SetOnRequestTie(t, 16000)
+		return
+	}
 	if r.chance(12) {
 		vcRunC06Client(t, r.chance(50))
 		return
@@ -590,4 +599,112 @@ func vcRunC06HupWindow(t *vcTrial) {
 	t.Nontrivial = atomic.LoadInt32(&s2) == 1 && atomic.LoadInt32(&s3) == 1
 	t.Stat("hup_window_trials_placed", int(atomic.LoadInt32(&s2)))
 	t.Sig = "hup-window"
+}
+
+// vcRunC06SetOnRequestTie: SetOnRequest on a callback-less connection racing with the very first
+// delivery, thousands of times on fresh socketpairs, the writer's lead steered by feedback towards
+// the tie (half of the deliveries land before the handler is installed, half after). Whichever
+// side comes second must start the handler; input buffered with a handler installed, no task
+// running and nothing else coming is stranded (same witness as everywhere in C06).
+func vcRunC06SetOnRequestTie(t *vcTrial, rounds int) {
+	t.P("variant", "SetOnRequest racing the first delivery")
+	t.P("rounds", rounds)
+	workers := 8
+	var before, after int64
+	var wg sync.WaitGroup
+	for w := 0; w < workers; w++ {
+		wg.Add(1)
+		go func(wr *vfRng) {
+			defer wg.Done()
+			b, a := vc06TieWorker(t, wr, rounds/workers)
+			atomic.AddInt64(&before, int64(b))
+			atomic.AddInt64(&after, int64(a))
+		}(vfNewRng(t.R.next()))
+	}
+	wg.Wait()
+	t.Stat("setonrequest_tie_rounds", int(before+after))
+	t.Stat("setonrequest_input_first", int(before))
+	t.Stat("setonrequest_handler_first", int(after))
+	t.Nontrivial = int(before) > rounds/20 && int(after) > rounds/20
+	t.Sig = fmt.Sprintf("setonrequest-tie|balanced=%v", t.Nontrivial)
+}
+
+func vc06TieWorker(t *vcTrial, r *vfRng, rounds int) (before, after int) {
+	lead := 2000 // spin iterations the installer waits after releasing the writer
+	spin := func(n int) {
+		x := 0
+		for i := 0; i < n; i++ {
+			x += i
+		}
+		_ = x
+	}
+	for i := 0; i < rounds && !t.Violated(); i++ {
+		fds, err := syscall.Socketpair(syscall.AF_UNIX, syscall.SOCK_STREAM, 0)
+		if err != nil {
+			return
+		}
+		c, err := NewFDConnection(fds[0])
+		if err != nil {
+			syscall.Close(fds[0])
+			syscall.Close(fds[1])
+			return
+		}
+		inner := vcInner(c)
+		var inv int32
+		handler := func(ctx context.Context, c Connection) error {
+			atomic.AddInt32(&inv, 1)
+			c.Reader().Skip(c.Reader().Len())
+			c.Reader().Release()
+			return nil
+		}
+		start := make(chan struct{})
+		wrote := make(chan struct{})
+		go func() {
+			<-start
+			syscall.Write(fds[1], []byte{1})
+			close(wrote)
+		}()
+		jit := r.intn(lead/2 + 1)
+		close(start)
+		spin(lead - lead/4 + jit)
+		buffered := inner.inputBuffer.Len() > 0
+		c.SetOnRequest(handler)
+		<-wrote
+		if buffered {
+			before++
+			lead -= lead / 64
+		} else {
+			after++
+			lead += lead/64 + 1
+		}
+		if lead < 16 {
+			lead = 16
+		}
+		// bounded progress: the byte is delivered and handled
+		ok := false
+		for dl := time.Now().Add(200 * time.Millisecond); time.Now().Before(dl); {
+			if atomic.LoadInt32(&inv) > 0 {
+				ok = true
+				break
+			}
+			runtime.Gosched()
+		}
+		if !ok {
+			// witness: buffered, handler installed, nobody processing, runner alive, still so later
+			if inner.inputBuffer.Len() > 0 && inner.isUnlock(processing) && vcRunnerProgress(5, 5*time.Second) {
+				time.Sleep(100 * time.Millisecond)
+				if atomic.LoadInt32(&inv) == 0 && inner.inputBuffer.Len() > 0 && inner.isUnlock(processing) {
+					t.Violate("C06", "stranded_input", "round %d: SetOnRequest raced with the first delivery on a callback-less connection (input seen before installing: %v): %d byte(s) are buffered, the handler is installed, no invocation was started, the processing lock is free and runner canary tasks completed meanwhile", i, buffered, inner.inputBuffer.Len())
+				}
+			} else if atomic.LoadInt32(&inv) == 0 && inner.inputBuffer.Len() == 0 {
+				// not delivered yet (loaded machine): wait for it, no verdict
+				for dl := time.Now().Add(5 * time.Second); atomic.LoadInt32(&inv) == 0 && time.Now().Before(dl); {
+					time.Sleep(time.Millisecond)
+				}
+			}
+		}
+		c.Close()
+		syscall.Close(fds[1])
+	}
+	return
 }
